@@ -9,6 +9,7 @@ pub mod sym;
 pub mod node;
 pub mod h_graph;
 pub mod h_panic;
+pub mod h_fin;
 
 #[cfg(feature = "native")]
 pub mod registry;
